@@ -5,6 +5,7 @@ import (
 	"go/constant"
 	"go/token"
 	"go/types"
+	"os"
 	"sort"
 	"strings"
 
@@ -22,6 +23,7 @@ type sval struct {
 	sym  string         // … or a symbolic expression
 	tup  []sval         // … or a tuple
 	dyn  types.Type     // known dynamic type of an interface value (optional)
+	ptr  bool           // the value stands for the address of a local holding it (&v): non-nil; loading through it yields the value
 	fn   *ssa.Function  // a function value (a named function, or a closure with its captured values in free)
 	free []sval
 }
@@ -57,13 +59,19 @@ type specCfg struct {
 	Paths map[string]sval
 	// Call bindings: decide the result of a call (static callee name, ordinal of that callee in the function).
 	Call func(fn *ssa.Function, call *ssa.Call, nth int, args []sval) (sval, bool)
+	// DynCall decides the result of a call through a function value that the evaluation could not resolve.
+	DynCall func(fn *ssa.Function, call *ssa.Call, callee sval, args []sval) (sval, bool)
 	// Dynamic types of symbolic interface values, keyed by their symbolic name.
 	Dyn map[string]types.Type
 	// Index bindings: value of x[k] for symbolic x (keyed "x[k]").
 	MaxDepth  int
 	MaxVisits int
 	MaxLoop   int // how often one block may be re-entered on a path (default 2)
-	Inline    func(f *ssa.Function) bool
+	// Consistent: a symbolic condition met twice on one path is decided the same way both times. Sound only when every
+	// symbol stands for one value (hooks name values by what they denote; no opaque impure calls among the conditions).
+	Consistent bool
+	MaxAlts    int // how many distinct outcomes of an inlined callee are forked on (default 8); beyond, the call stays symbolic
+	Inline     func(f *ssa.Function) bool
 }
 
 type specRun struct {
@@ -153,6 +161,9 @@ func (sr *specRun) fnFree(fn *ssa.Function, args []sval, free []sval, depth int)
 				return sval{sym: c.Name(), fn: c}
 			}
 			if x, ok := env[v]; ok {
+				if _, isAlloc := v.(*ssa.Alloc); isAlloc && x.tup == nil {
+					x.ptr = true
+				}
 				return x
 			}
 			if _, isAlloc := v.(*ssa.Alloc); isAlloc {
@@ -189,6 +200,10 @@ func (sr *specRun) fnFree(fn *ssa.Function, args []sval, free []sval, depth int)
 					env[in] = constv(constant.MakeBool(!constant.BoolVal(x.c)))
 				case in.Op == token.SUB && x.isConst():
 					env[in] = constv(constant.UnaryOp(token.SUB, x.c, 0))
+				case in.Op == token.MUL && x.ptr:
+					// load through a pointer to a tracked local
+					x.ptr = false
+					env[in] = x
 				case in.Op == token.MUL:
 					// load: bound access path?
 					p := path(in)
@@ -213,6 +228,8 @@ func (sr *specRun) fnFree(fn *ssa.Function, args []sval, free []sval, depth int)
 						env[in] = bv
 					} else if cv, ok := specLoad(env, in.X); ok {
 						env[in] = cv // local variable / struct field / array element tracked through stores
+					} else if z, ok := untouchedZero(env, in); ok {
+						env[in] = z // a field of a local that no store on this path has reached yet: its zero value
 					} else if ep, ok := envPath(env, in); ok {
 						env[in] = symv(ep)
 					} else {
@@ -234,6 +251,17 @@ func (sr *specRun) fnFree(fn *ssa.Function, args []sval, free []sval, depth int)
 				x := get(in.X)
 				if x.tup != nil && in.Field < len(x.tup) {
 					env[in] = x.tup[in.Field]
+				} else if c, isC := in.X.(*ssa.Const); isC && c.Value == nil {
+					// a field of the zero value of a struct
+					if z, ok := zeroConst(in.Type()); ok {
+						env[in] = z
+					}
+				} else if x.nil && x.tup == nil {
+					if _, isStruct := in.X.Type().Underlying().(*types.Struct); isStruct {
+						if z, ok := zeroConst(in.Type()); ok {
+							env[in] = z
+						}
+					}
 				}
 			case *ssa.Call:
 				var as []sval
@@ -248,8 +276,17 @@ func (sr *specRun) fnFree(fn *ssa.Function, args []sval, free []sval, depth int)
 					}
 				} else if in.Call.StaticCallee() == nil && !in.Call.IsInvoke() {
 					if _, isB := in.Call.Value.(*ssa.Builtin); !isB {
-						if cv := get(in.Call.Value); cv.fn != nil {
+						cv := get(in.Call.Value)
+						if cv.fn != nil {
 							target, free = cv.fn, cv.free
+						} else if sr.cfg.DynCall != nil {
+							if dv, ok := sr.cfg.DynCall(fn, in, cv, as); ok {
+								env[in] = dv
+								if strings.HasPrefix(dv.sym, "effect:") {
+									conds = append(append([]string{}, conds...), dv.sym)
+								}
+								continue
+							}
 						}
 					}
 				}
@@ -396,7 +433,26 @@ func (sr *specRun) fnFree(fn *ssa.Function, args []sval, free []sval, depth int)
 					}
 					explore(b.Succs[i], b, env, conds, onPath, calls)
 				} else {
+					only := -1
+					if sr.cfg.Consistent {
+						// the same symbolic condition was decided earlier on this path: stay consistent with it
+						lit := canonLit(cv.String())
+						for _, c := range conds {
+							if strings.HasPrefix(c, "effect:") {
+								continue
+							}
+							switch canonLit(c) {
+							case lit:
+								only = 0
+							case negLit(lit):
+								only = 1
+							}
+						}
+					}
 					for i := 0; i < 2; i++ {
+						if only >= 0 && i != only {
+							continue
+						}
 						ne := make(map[ssa.Value]sval, len(env))
 						for k, v := range env {
 							ne[k] = v
@@ -488,7 +544,14 @@ func (sr *specRun) call(fn *ssa.Function, in *ssa.Call, as []sval, depth int, ca
 				}
 				uniq[k] = o
 			}
-			if len(uniq) >= 1 && len(uniq) <= 8 {
+			maxAlts := sr.cfg.MaxAlts
+			if maxAlts == 0 {
+				maxAlts = 8
+			}
+			if os.Getenv("PLVERIF_DEBUG") == "inline" {
+				fmt.Fprintln(os.Stderr, "INLINE", callee.Name(), "outcomes", len(sub), "distinct", len(uniq), "abort", sr.abort)
+			}
+			if len(uniq) >= 1 && len(uniq) <= maxAlts {
 				var alts []callAlt
 				for _, k := range order {
 					o := uniq[k]
@@ -543,6 +606,9 @@ func foldBin(op token.Token, x, y sval) sval {
 		}
 		if other.nil {
 			return constv(constant.MakeBool(op == token.EQL))
+		}
+		if other.ptr {
+			return constv(constant.MakeBool(op == token.NEQ)) // the address of a local is never nil
 		}
 		if other.isConst() || strings.HasPrefix(other.sym, "err:") || strings.HasPrefix(other.sym, "(") && other.dyn != nil {
 			return constv(constant.MakeBool(op == token.NEQ))
@@ -760,4 +826,32 @@ func captured(b ssa.Value, get func(ssa.Value) sval) sval {
 		}
 	}
 	return get(b)
+}
+
+// untouchedZero: the load reads a field of a local struct variable that never leaves the function (only field
+// accesses, whole stores and loads refer to it) and that no store on the current path has written: Go's zero value.
+func untouchedZero(env map[ssa.Value]sval, ld *ssa.UnOp) (sval, bool) {
+	fa, ok := ld.X.(*ssa.FieldAddr)
+	if !ok {
+		return sval{}, false
+	}
+	al, ok := fa.X.(*ssa.Alloc)
+	if !ok || al.Referrers() == nil {
+		return sval{}, false
+	}
+	if _, has := env[al]; has {
+		return sval{}, false
+	}
+	for _, r := range *al.Referrers() {
+		switch x := r.(type) {
+		case *ssa.FieldAddr, *ssa.UnOp, *ssa.DebugRef:
+		case *ssa.Store:
+			if x.Addr != ssa.Value(al) {
+				return sval{}, false
+			}
+		default:
+			return sval{}, false
+		}
+	}
+	return zeroConst(ld.Type())
 }
